@@ -80,9 +80,10 @@ def canon_compiler(m):
 
 def bfs(problem, max_depth, acc, max_states=None, on_state=None, shard=None):
     """Depth-iterated BFS.  Returns dict(states, transitions, depth_completed, fixpoint)."""
+    dispose = getattr(problem, 'dispose', None) or (lambda st: None)
     s0 = problem.new()
     k0 = problem.canon(s0)
-    problem.dispose(s0)
+    dispose(s0)
     nokey = isinstance(k0, tuple) and k0 and k0[0] == 'NOKEY'
     seen = {k0 if not nokey else ()}
     frontier = [()]
@@ -104,7 +105,7 @@ def bfs(problem, max_depth, acc, max_states=None, on_state=None, shard=None):
                 for o in hist:
                     problem.step(base, o)
                 ops = list(problem.enabled(base, hist))
-                problem.dispose(base)
+                dispose(base)
             for op in ops:
                 st = problem.new()
                 for o in hist:
@@ -124,7 +125,7 @@ def bfs(problem, max_depth, acc, max_states=None, on_state=None, shard=None):
                     nxt.append(hist + (op,))
                     if on_state:
                         on_state(st, hist + (op,))
-                problem.dispose(st)
+                dispose(st)
                 if max_states and states >= max_states:
                     capped = True
                     break
